@@ -411,6 +411,29 @@ func importAliasesKept(c *Ctx, rule string) {
 				return true
 			}
 			fn := calleeOf(info, call)
+			// an edit applied through a function value of astutil's shape — func(*token.FileSet, *ast.File, name, path string) bool:
+			// the name and the path it is handed come from one spec
+			if fn == nil && len(call.Args) == 4 {
+				if sig, ok := info.TypeOf(call.Fun).Underlying().(*types.Signature); ok && sig.Params().Len() == 4 &&
+					sig.Params().At(0).Type().String() == "*go/token.FileSet" && sig.Params().At(1).Type().String() == "*go/ast.File" &&
+					isStringType(sig.Params().At(2).Type()) && isStringType(sig.Params().At(3).Type()) {
+					ord++
+					n++
+					okPair := false
+					na, ok1 := ast.Unparen(call.Args[2]).(*ast.Ident)
+					pa, ok2 := ast.Unparen(call.Args[3]).(*ast.Ident)
+					if ok1 && ok2 {
+						for _, pr := range pairs {
+							if info.ObjectOf(na) == pr.name && info.ObjectOf(pa) == pr.path {
+								okPair = true
+							}
+						}
+					}
+					c.check(okPair, rule, fmt.Sprintf("%s|import-edit#%d|name-and-path-of-one-spec", funcKey(p, fd), ord), c.pos(call.Pos()), "name and path come from the same import spec",
+						fmt.Sprintf("%s applies an import edit with a name (%s) and a path (%s) that were not taken together from one import spec: the import is written with a different alias than the one the file uses", fd.Name.Name, types.ExprString(call.Args[2]), types.ExprString(call.Args[3])))
+				}
+				return true
+			}
 			if fn == nil || !strings.HasPrefix(fullName(fn), astutilPkg) {
 				return true
 			}
@@ -465,7 +488,7 @@ func importAliasesKept(c *Ctx, rule string) {
 		c.viol(rule, "anchor-lost:import-spec-splitter", "", "no function taking an *ast.ImportSpec found in cmd/templ/imports")
 	}
 	c.count("import_rewrite_calls", n)
-	c.floor(rule, 4)
+	c.floor(rule, 2) // (the edits may share one helper that applies them)
 }
 
 // derivedFlagsFresh: C08.R7 — a boolean field that the parser derives from the content of a sibling field is derived
